@@ -1,0 +1,12 @@
+//! Verification hooks. Compiled only with `--cfg ironcalc_verif`; thin wrappers that make
+//! private items reachable from an external harness. No behaviour change.
+
+/// `export::escape::escape_xml`
+pub fn escape_xml(s: &str) -> String {
+    crate::export::verif_escape_xml(s)
+}
+
+/// `import::shared_strings::decode_xlsx_escapes`
+pub fn decode_xlsx_escapes(s: &str) -> String {
+    crate::import::verif_decode_xlsx_escapes(s)
+}
